@@ -20,18 +20,18 @@ type Result struct {
 }
 
 type interp struct {
-	p       *Program
-	out     *strings.Builder // current writer (main or a capture buffer)
-	main    *strings.Builder
-	ij      map[string]Value
-	hasIJ   bool
-	depth   int
-	steps   int
-	res     *Result
-	escape  bool // effective autoescape of the running template
-	file    *File
-	env     *Env
-	params  map[string]Value // the data the running template was entered with (for data="all")
+	p      *Program
+	out    *strings.Builder // current writer (main or a capture buffer)
+	main   *strings.Builder
+	ij     map[string]Value
+	hasIJ  bool
+	depth  int
+	steps  int
+	res    *Result
+	escape bool // effective autoescape of the running template
+	file   *File
+	env    *Env
+	params map[string]Value // the data the running template was entered with (for data="all")
 }
 
 // Render runs template fq of p with the given data and injected data.
@@ -366,18 +366,16 @@ func ApplyDirective(name string, v Value, args []Value) (Value, bool) {
 		}
 		s := text(v)
 		n := int(args[0].I)
-		if len(s) <= n { // fits in every length unit
+		if utf8.RuneCountInString(s) <= n { // fits
 			return v, false
 		}
-		for i := 0; i < len(s); i++ {
-			if s[i] >= 0x80 {
-				unspecified("truncate of non-ASCII text (length unit differs between backends)")
-			}
+		if !utf8.ValidString(s) {
+			unspecified("truncate of text that is not valid UTF-8")
 		}
 		if ellipsis && n > 3 {
-			return S(s[:n-3] + "..."), false
+			return S(TruncateRunes(s, n-3) + "..."), false
 		}
-		return S(s[:n]), false
+		return S(TruncateRunes(s, n)), false
 	}
 	unspecified("directive %s has no exact model", name)
 	return v, false
